@@ -67,6 +67,28 @@ func (c *Ctx) evalLeafBatch(cases []*leafCase) {
 	for i, lc := range cases {
 		lc.model = ans[i]
 	}
+	// The one-shot entry point of the root package, on the same object plus an unrelated attribute of an odd Go type:
+	// the comparison must not care which entry point evaluates it nor what else the object holds.
+	for _, lc := range cases {
+		if !c.R.Chance(1, 8) || lc.goObs.E == "escaped" || lc.goObs.E == "panic" || len(lc.goObs.Calls) > 0 {
+			continue
+		}
+		obj := lc.obj.GoMap()
+		if obj == nil || lc.obj.Get("zz_side") != nil {
+			continue
+		}
+		obj["zz_side"] = mkOther(pick(c.R, []int{16, 1, 4, 9, 17, 12}))
+		rv, re, resc := rulesEvaluate(lc.text, obj)
+		c.count("root_evaluate_with_odd_sibling")
+		if resc != "" {
+			continue
+		}
+		if rv != lc.goObs.V || (re != "-") != (lc.goObs.E != "-") {
+			c.violate(Violation{What: "rules.Evaluate on the same object plus an unrelated attribute gives this comparison another outcome than NewEvaluator+Process",
+				Rule: lc.text, RuleHex: hx(lc.text), Object: lc.obj.Pretty() + " plus zz_side=" + fmt.Sprintf("%T", obj["zz_side"]), ObjProto: lc.obj.String(),
+				Demand: "the outcome of Process on the object: " + lc.goObs.Line(), Go: fmt.Sprintf("rules.Evaluate -> (%v, err=%s)", rv, re), Model: lc.model})
+		}
+	}
 	// Reuse after a failed call: the comparison as the right operand of `(gq eq 1 and zq co 1) or …` on one evaluator that
 	// first processes an object on which the guard reaches the unsupported comparison (the call fails), then the object
 	// of the case with the guard off. The comparisons are stated for any position in a rule and any history of the
@@ -554,6 +576,32 @@ func checkC08(c *Ctx) {
 		if !c.R.Chance(1, 15) {
 			attr = nearValue(c.R, lf, &idc)
 		}
+		if c.R.Chance(1, 100) {
+			// a long list whose only matching element sits near its end (or just past a round position)
+			nEl := pick(c.R, []int{66, 130, 257, 300, 1025, 1100, 1500})
+			pos := nEl - 1 - c.R.Intn(3)
+			l := Lit{Kind: kind}
+			for e := 0; e < nEl; e++ {
+				switch kind {
+				case "ilist":
+					l.Elems = append(l.Elems, strconv.Itoa(3*e+1))
+				case "dlist":
+					l.Elems = append(l.Elems, strconv.Itoa(3*e+1)+".5")
+				default:
+					l.Elems = append(l.Elems, quote("s"+strconv.Itoa(e)))
+				}
+			}
+			lf.Lit = l
+			switch kind {
+			case "ilist":
+				attr = pick(c.R, []*AV{avInt(int64(3*pos + 1)), avFloat(float64(3*pos + 1)), {K: AVInt64, I: int64(3*pos + 1)}})
+			case "dlist":
+				attr = avFloat(float64(3*pos+1) + 0.5)
+			default:
+				attr = avStr(pick(c.R, []string{"s", "S"}) + strconv.Itoa(pos))
+			}
+			c.count("long_list_member_near_the_end")
+		}
 		obj := avObj()
 		cur := obj
 		for j := 0; j < len(lf.Path)-1; j++ {
@@ -612,6 +660,9 @@ func checkC08(c *Ctx) {
 			c.violate(Violation{What: "`in` disagrees with the disjunction of `eq` over the list elements", Rule: inText, RuleHex: hx(inText), Object: obj.Pretty(), ObjProto: obj.String(),
 				Demand: "the verdict of " + fmt.Sprintf("%q", orText) + ": " + b.Line(), Go: a.Line() + " " + a.ErrText})
 			continue
+		}
+		if len(inText) > 3000 {
+			continue // (C08 compares the engine with itself; the model is asked about rules of ordinary size only)
 		}
 		ans := c.ask1("EVAL\t" + lowerTable([]string{inText}, obj) + "\t" + runeHex(inText) + "\t" + obj.String())
 		if ans != "NOLOWER" && (modelField(ans, "v") == "1") != a.V {
